@@ -3711,3 +3711,75 @@ func ruleResultAlias(prog *Program, rep *Report, rels ...string) {
 	rep.Rules = append(rep.Rules, "M-resultalias: no function of package jp assigns a parameter or a type-switch binding (a container of the data) to its named result slice: results are collected in memory of their own")
 	runSynRule(prog, rep, "M-resultalias", rels, matchResultAlias, fixtureResultAlias, 1, 20)
 }
+
+// ---------------------------------------------------------------- R-reuseguard
+
+// ruleReuseGuard: a map goes into the recycle list (p.maps = append(p.maps, m)) only when the Reuse
+// option is on: a map made while it is off has been handed to the caller for good, and would be
+// cleared and refilled once Reuse is switched on for a later document.
+func ruleReuseGuard(prog *Program, rep *Report) {
+	rep.Rules = append(rep.Rules, "R-reuseguard: every append to a parser's list of recycled maps sits in the then-branch of a test of the Reuse option alone (`if p.Reuse {`): maps created with Reuse off never enter the recycle list")
+	n := 0
+	for _, rel := range []string{"oj", "gen"} {
+		pk := prog.Pkg(rel)
+		if pk == nil {
+			continue
+		}
+		for _, f := range pk.Syntax {
+			if strings.HasSuffix(prog.Fset.Position(f.Pos()).Filename, "_test.go") {
+				continue
+			}
+			for _, d := range f.Decls {
+				fd, ok := d.(*ast.FuncDecl)
+				if !ok || fd.Body == nil {
+					continue
+				}
+				var path []ast.Node
+				ast.Inspect(fd.Body, func(k ast.Node) bool {
+					if k == nil {
+						path = path[:len(path)-1]
+						return true
+					}
+					path = append(path, k)
+					as, ok := k.(*ast.AssignStmt)
+					if !ok || len(as.Lhs) != 1 || len(as.Rhs) != 1 {
+						return true
+					}
+					sel, ok := as.Lhs[0].(*ast.SelectorExpr)
+					if !ok || sel.Sel.Name != "maps" {
+						return true
+					}
+					call, ok := as.Rhs[0].(*ast.CallExpr)
+					if !ok {
+						return true
+					}
+					if id, ok := call.Fun.(*ast.Ident); !ok || id.Name != "append" {
+						return true
+					}
+					n++
+					guarded := false
+					for i := len(path) - 2; i >= 0; i-- {
+						is, ok := path[i].(*ast.IfStmt)
+						if !ok || !nodeWithin(is.Body, as) {
+							continue
+						}
+						if c, ok := ast.Unparen(is.Cond).(*ast.SelectorExpr); ok && c.Sel.Name == "Reuse" {
+							guarded = true
+						}
+					}
+					key := fmt.Sprintf("%s.%s:maps-append#%d", rel, funcKey(fd), n)
+					if guarded {
+						rep.Discharge("R-reuseguard", key, prog.Pos(as.Pos()), "inside `if <parser>.Reuse {`")
+					} else {
+						rep.Violate(Finding{Rule: "R-reuseguard", Key: key, Pos: prog.Pos(as.Pos()), Msg: funcKey(fd) + " appends a map to the recycle list outside a test of the Reuse option alone: a map handed out with Reuse off is cleared and refilled by a later parse with Reuse on"})
+					}
+					return true
+				})
+			}
+		}
+	}
+	rep.Eval(n)
+	if n < 2 {
+		rep.Errorf("R-reuseguard found %d appends to a recycle list (floor 2)", n)
+	}
+}
